@@ -449,7 +449,10 @@ def run_all(cx):
             if f['path'].startswith('<piecewise::PiecewiseEvaluator<') and f['path'].endswith('>::evaluate'):
                 # the evaluator's fields are private and every store to `tail` is a suffix of
                 # `all_segments_front` (rule C03/repr): analyse under that representation, 0 ≤ t ≤ len(front)
-                from .c03 import mkself
+                from .c03 import mkself, field_roles, ROLES
+                _r = field_roles(cx)
+                if _r is not None:
+                    ROLES['idx'] = _r
                 n1 = ('len', ('seq', 'front'))
                 ret, st, args = it.analyse_fn(f, {}, ['self', 'x'], [mkself, None],
                                               init_facts=[('icmp', 'le', sym('t'), n1)])
